@@ -529,6 +529,9 @@ func SymValue[T any](name string, depth, mode int) T {
 	if mode&1 == 1 {
 		g.pick = Choose(countTop(reflect.TypeOf(&out).Elem(), g.impls) + 1)
 	}
+	if mode&16 != 0 {
+		g.anyRR = Choose(5)
+	}
 	g.gen(reflect.ValueOf(&out).Elem(), depth, true)
 	return out
 }
